@@ -191,7 +191,7 @@ def run(R, tier):
     R.check(e == ("field", ("arg", 1, "self"), fields[ri_]), "R05.6", "ResponseUnit::finish", "returns the latched result", "finish() must return self.result, returns %s" % sym.show(e))
 
     # ---- R05.7 forward-only stream ----------------------------------------------------------------------------------------
-    allowed = ("core::iter::Peekable::peek", "<core::iter::Peekable<I> as core::iter::Iterator>::next", "core::iter::Peekable::next_if", "core::iter::Peekable::next_if_eq", "core::iter::Peekable::peek_mut", "core::iter::Iterator::next")
+    allowed = ("core::iter::Peekable::peek", "<core::iter::Peekable<I> as core::iter::Iterator>::next", "core::iter::Peekable::next_if", "core::iter::Peekable::next_if_eq", "core::iter::Iterator::next")
     bad = []
     n = 0
     for b in u.bodies:
